@@ -13,10 +13,16 @@ def run(ctx):
     ctx.add_assumption('hook Phase::verif_from_parts (cfg rustaudio_dasp_verif) is used to start from an arbitrary phase state')
     ctx.add_assumption('precondition of the phase-wrap harness: step >= 0 finite and phase + step finite (an infinite sum gives NaN: '
                        'hz/rate overflowing f64 is outside any meaningful reading of "advances by frequency/rate")')
+    ctx.add_assumption('float-level reading of "advances by frequency/rate": the step is the correctly rounded f64 quotient (Kani '
+                       'c17_step_bits_*: concrete rates 49 / 44100 — a symbolic f64 divisor does not finish in CBMC — and every finite '
+                       'non-negative f32-valued frequency; full f64 frequencies in the thorough tier); other rates rest on the Verus proof over reals')
     ctx.add_assumption('NOT claimed: |simplex_noise_1d| <= 1 (degree-9 polynomial bound, neither Z3 nonlinear nor bit-blasted f64 '
                        'products settle it) and float-level behaviour for infinite steps')
     run_unit(ctx, 'osc', search_crate='signal')
-    run_kani(ctx, 'osc', harness=['c17_'], rustflags='--cfg rustaudio_dasp_verif', harness_timeout='8m')
+    # c17_step_bits_*: step == the correctly rounded f64 quotient hz / rate (bit-precise; rate 49, every finite f32 frequency);
+    # thorough adds rate 44100 and the full f64 frequency domain (c17t_*)
+    hs = ['c17_'] + (['c17t_'] if ctx.tier == 'thorough' else [])
+    run_kani(ctx, 'osc', harness=hs, rustflags='--cfg rustaudio_dasp_verif', harness_timeout='15m')
 
 
 def prepare_replay(rec):
